@@ -483,6 +483,8 @@ def _cast(v, src, dst):
         if src.kind == "f" and src.itemsize > dst.itemsize:
             return _round_float(float(v), dst)
         return float(v)
+    if v is None and dst.kind in "iufb":
+        raise TypeError("int() argument must be a string, a bytes-like object or a real number, not 'NoneType'")     # as numpy does
     raise ShimUnsupported(f"cast {src}->{dst}")
 
 
